@@ -90,6 +90,8 @@ func VxC17Limit() {
 	vxAssert(err == nil, "analysis-accepts-template")
 	err = EvalProgram(pi, store, WithCreatedFactLimit(l))
 	vxReach("returned")
+	vxObserve("limit-error", err != nil)
+	vxObserve("facts-after-eval", store.EstimateFactCount())
 	// reference: bounded number of rounds; "not converged" means the least model is larger than we can enumerate
 	_, conv := ref.vxRefEval(lt.t.rules, 2*lmax+6)
 	if lt.diverges {
